@@ -346,6 +346,8 @@ impl DrawExecutor {
     }
 
     fn draw_ellipse(&mut self, xm: i32, ym: i32, a: i32, b: i32) {
+        // the error terms hold products of the radii: 64 bit, or large radii wrap and the loop runs away
+        let (a, b) = (i64::from(a), i64::from(b));
         let mut x = -a;
         let mut y = 0; /* II. quadrant from bottom left to top right */
         let e2 = b * b;
@@ -353,10 +355,11 @@ impl DrawExecutor {
         let color = self.line_color;
 
         while x <= 0 {
-            self.set_pixel(xm - x, ym + y, color); /*   I. Quadrant */
-            self.set_pixel(xm + x, ym + y, color); /*  II. Quadrant */
-            self.set_pixel(xm + x, ym - y, color); /* III. Quadrant */
-            self.set_pixel(xm - x, ym - y, color); /*  IV. Quadrant */
+            let (px, py) = (x as i32, y as i32);
+            self.set_pixel(xm - px, ym + py, color); /*   I. Quadrant */
+            self.set_pixel(xm + px, ym + py, color); /*  II. Quadrant */
+            self.set_pixel(xm + px, ym - py, color); /* III. Quadrant */
+            self.set_pixel(xm - px, ym - py, color); /*  IV. Quadrant */
             let e2 = 2 * err;
             if e2 >= (x * 2 + 1) * b * b {
                 /* e_xy+e_x > 0 */
@@ -373,12 +376,14 @@ impl DrawExecutor {
         while y < b {
             /* too early stop of flat ellipses a=1, */
             y += 1;
-            self.set_pixel(xm, ym + y, color); /* -> finish tip of ellipse */
-            self.set_pixel(xm, ym - y, color);
+            self.set_pixel(xm, ym + y as i32, color); /* -> finish tip of ellipse */
+            self.set_pixel(xm, ym - y as i32, color);
         }
     }
 
     fn fill_ellipse(&mut self, xm: i32, ym: i32, a: i32, b: i32) {
+        // the error terms hold products of the radii: 64 bit, or large radii wrap and the loop runs away
+        let (a, b) = (i64::from(a), i64::from(b));
         let mut x = -a;
         let mut y = 0; /* II. quadrant from bottom left to top right */
         let e2 = b * b;
@@ -386,8 +391,9 @@ impl DrawExecutor {
         let color = self.line_color;
 
         while x <= 0 {
-            self.fill_rect(xm - x, ym + y, xm + x, ym + y); /*  II. Quadrant */
-            self.fill_rect(xm + x, ym - y, xm - x, ym - y); /*  IV. Quadrant */
+            let (px, py) = (x as i32, y as i32);
+            self.fill_rect(xm - px, ym + py, xm + px, ym + py); /*  II. Quadrant */
+            self.fill_rect(xm + px, ym - py, xm - px, ym - py); /*  IV. Quadrant */
             let e2 = 2 * err;
             if e2 >= (x * 2 + 1) * b * b {
                 /* e_xy+e_x > 0 */
@@ -404,8 +410,8 @@ impl DrawExecutor {
         while y < b {
             /* too early stop of flat ellipses a=1, */
             y += 1;
-            self.set_pixel(xm, ym + y, color); /* -> finish tip of ellipse */
-            self.set_pixel(xm, ym - y, color);
+            self.set_pixel(xm, ym + y as i32, color); /* -> finish tip of ellipse */
+            self.set_pixel(xm, ym - y as i32, color);
         }
     }
 
